@@ -364,7 +364,7 @@ def C14(tier, seed):
                         f"and loaded measurements arbitrary reals, label array cells symbolic; save_tracks then "
                         f"load_tracks(solution=True) through an ideal directory", fallback_obligations=INT_OBL))
     for name, cfg in ((":N=2:2x1x3", dict(N=2, shape=(2, 1, 3))),) + (
-            () if tier == "quick" else ((":N=3:3x1x3", dict(N=3, shape=(3, 1, 3))),)):
+            () if tier == "quick" else ((":N=3:2x1x3", dict(N=3, shape=(2, 1, 3))),)):
         cfg = dict(cfg, op="geff_seg", select=False)
         runs.append(Run("roundtrip:geff_with_segmentation" + name, roundtrip.geff_seg_harness, cfg, roundtrip.replay,
                         ("roundtrip", "witness:last_node_not_convex"),
